@@ -458,14 +458,23 @@ fn any_col() -> BoxedStrategy<u8> {
     prop_oneof![1 => Just(0u8), 2 => Just(1u8), 4 => Just(2u8), 3 => Just(3u8), 3 => Just(4u8), 4 => Just(5u8), 3 => Just(6u8), 3 => Just(7u8), 2 => Just(8u8)].boxed()
 }
 
-fn pred_strategy() -> BoxedStrategy<Pred> {
+/// column choice biased towards the column the files are sorted / clustered on (`focus`), so that
+/// predicates and sort keys correlate with the data layout (that is what makes row groups and pages prunable)
+fn col_f(focus: Option<u8>) -> BoxedStrategy<u8> {
+    match focus {
+        Some(c) => prop_oneof![2 => Just(c), 3 => any_col()].boxed(),
+        None => any_col(),
+    }
+}
+
+fn pred_strategy(focus: Option<u8>) -> BoxedStrategy<Pred> {
     let leaf = prop_oneof![
-        6 => (any_col(), 0u8..6, lit_strategy()).prop_map(|(col, op, lit)| Pred::Cmp { col, op, lit }),
+        6 => (col_f(focus), 0u8..6, lit_strategy()).prop_map(|(col, op, lit)| Pred::Cmp { col, op, lit }),
         1 => (0u8..7, 0u8..6, 0u8..7).prop_map(|(l, op, r)| Pred::CmpCol { l, op, r }),
-        2 => (any_col(), prop::collection::vec(lit_strategy(), 1..5), any::<bool>()).prop_map(|(col, lits, neg)| Pred::In { col, lits, neg }),
+        2 => (col_f(focus), prop::collection::vec(lit_strategy(), 1..5), any::<bool>()).prop_map(|(col, lits, neg)| Pred::In { col, lits, neg }),
         2 => (s_strategy(), 0u8..4, prop::bool::weighted(0.3)).prop_map(|(prefix, kind, neg)| Pred::Like { prefix, kind, neg }),
         1 => (any_col(), any::<bool>()).prop_map(|(col, neg)| Pred::IsNull { col, neg }),
-        2 => (any_col(), lit_strategy(), lit_strategy(), prop::bool::weighted(0.25), prop::bool::weighted(0.85)).prop_map(|(col, mut lo, mut hi, neg, ordered)| {
+        2 => (col_f(focus), lit_strategy(), lit_strategy(), prop::bool::weighted(0.25), prop::bool::weighted(0.85)).prop_map(|(col, mut lo, mut hi, neg, ordered)| {
             if ordered {
                 // lo <= hi component-wise, so that the range is usually not empty
                 if lo.i > hi.i { std::mem::swap(&mut lo.i, &mut hi.i); }
@@ -501,13 +510,13 @@ fn proj_strategy() -> BoxedStrategy<Proj> {
     .boxed()
 }
 
-fn query_strategy() -> BoxedStrategy<Query> {
+fn query_strategy(focus: Option<u8>) -> BoxedStrategy<Query> {
     let order = prop_oneof![
-        5 => Just(vec![]),
-        3 => prop::collection::vec((any_col(), any::<bool>(), any::<bool>()).prop_map(|(col, desc, nulls_first)| OrdKey { col, desc, nulls_first }), 1..3),
+        4 => Just(vec![]),
+        4 => prop::collection::vec((col_f(focus), any::<bool>(), any::<bool>()).prop_map(|(col, desc, nulls_first)| OrdKey { col, desc, nulls_first }), 1..3),
     ];
     let limit = prop_oneof![5 => Just(None), 1 => Just(Some(0u32)), 4 => (1u32..40).prop_map(Some), 1 => (40u32..500).prop_map(Some)];
-    (prop::collection::vec(proj_strategy(), 0..5), prop::bool::weighted(0.7), prop::option::weighted(0.9, pred_strategy()), order, limit)
+    (prop::collection::vec(proj_strategy(), 0..5), prop::bool::weighted(0.7), prop::option::weighted(0.9, pred_strategy(focus)), order, limit)
         .prop_map(|(proj, check_idx, pred, order, limit)| Query { proj, check_idx, pred, order, limit })
         .boxed()
 }
@@ -577,7 +586,10 @@ fn files_strategy(max_rows: usize) -> BoxedStrategy<(Vec<Vec<Row>>, Layout)> {
     (layout, nulls, 1usize..4)
         .prop_flat_map(move |(layout, nulls, nfiles)| {
             let l2 = layout.clone();
-            let file = prop::collection::vec((row_strategy(nulls), any::<u16>()), 1..=max_rows).prop_map(move |rows| lay_out(rows, &l2));
+            // mostly files large enough for several row groups, sometimes tiny ones
+            let small = prop::collection::vec((row_strategy(nulls), any::<u16>()), 1..=(max_rows / 4).max(1));
+            let large = prop::collection::vec((row_strategy(nulls), any::<u16>()), (max_rows / 2).max(1)..=max_rows);
+            let file = prop_oneof![1 => small, 3 => large].prop_map(move |rows| lay_out(rows, &l2));
             (prop::collection::vec(file, nfiles..=nfiles), Just(layout))
         })
         .boxed()
@@ -585,7 +597,8 @@ fn files_strategy(max_rows: usize) -> BoxedStrategy<(Vec<Vec<Row>>, Layout)> {
 
 fn writer_strategy() -> BoxedStrategy<Writer> {
     (
-        8usize..=200,
+        // mostly small row groups (several per file), sometimes one big one
+        prop_oneof![3 => 8usize..=40, 1 => 40usize..=200],
         4usize..=64,
         1usize..=64,
         prop_oneof![1 => Just(0u8), 2 => Just(1u8), 4 => Just(2u8)],
@@ -841,12 +854,19 @@ impl Property for C24 {
     }
     fn strategy(&self, tier: Tier) -> BoxedStrategy<Case> {
         let max_rows = tier.pick(120, 400);
-        (files_strategy(max_rows), writer_strategy(), opts_strategy(), query_strategy())
-            .prop_map(|((files, layout), writer, opts, query)| Case { files, layout, writer, opts, query })
+        (files_strategy(max_rows), writer_strategy(), opts_strategy())
+            .prop_flat_map(|((files, layout), writer, opts)| {
+                let focus = match layout {
+                    Layout::Sorted { col } | Layout::Clustered { col, .. } => Some(col),
+                    Layout::Random => None,
+                };
+                (Just(files), Just(layout), Just(writer), Just(opts), query_strategy(focus))
+            })
+            .prop_map(|(files, layout, writer, opts, query)| Case { files, layout, writer, opts, query })
             .boxed()
     }
     fn budget(&self, tier: Tier) -> Budget {
-        Budget::new(tier.pick(1_200, 30_000), tier.pick(8, 16)).min_nontrivial(tier.pick(200, 5000)).case_timeout(90)
+        Budget::new(tier.pick(2_000, 30_000), tier.pick(8, 16)).min_nontrivial(tier.pick(300, 5000)).case_timeout(90)
     }
     fn rule(&self) -> String {
         "1-3 Parquet files (rowid = position in file) written under generated WriterProperties, sorted/clustered/random NULL-heavy data; \
@@ -983,6 +1003,9 @@ impl Property for C24 {
         }
         if plan_text(&done.got.plan).contains("reverse_row_groups=true") {
             labels.push("plan:reverse_row_groups".into());
+        }
+        if plan_text(&done.got.plan).contains("sort_order_for_reorder") {
+            labels.push("plan:sort_order_for_reorder".into());
         }
         if plan_text(&done.got.plan).contains("DynamicFilter") {
             labels.push("plan:dynamic-filter".into());
